@@ -117,8 +117,8 @@ def outcome(fn, *a):
     "run fn concretely -> ('ok', normalised value) | ('exc', type name) | ('reject',) | ('noclaim',)"
     try:
         return ('ok', norm(fn(*a)))
-    except MustRaise:
-        return ('reject',)
+    except MustRaise as e:
+        return ('reject',) + tuple(e.args[:1])
     except NoClaim:
         return ('noclaim',)
     except Exception as e:
@@ -130,6 +130,8 @@ def agree(impl_o, spec_o):
     if spec_o[0] == 'noclaim':
         return True
     if spec_o[0] == 'reject':
+        if len(spec_o) > 1:
+            return impl_o[0] == 'exc' and impl_o[1] == spec_o[1]
         return impl_o[0] == 'exc'
     if spec_o[0] == 'exc':
         # the oracle itself failed: treat as harness error upstream
